@@ -44,6 +44,40 @@ type stats struct {
 	observers                                                                    int
 	slowObserver, paused, coalesced, coalescedAtPaused, coalescedAtomic          bool
 	wildBeforeSync, whileDown, pauseByBound, boundHit, lateObserver, reconnected bool
+	// what the devices write into the prefix of their notifications (self, names: whose script is being interpreted)
+	self                                                        string
+	names                                                       map[string]bool
+	ptEmpty, ptEcho, ptHost, ptPeer, noPrefix, originSpelledOut bool
+	ptVaries                                                    map[string]map[string]bool // target -> prefix.target values it used
+	// quiet periods in real time: the longest scripted one, the collector's periodic metadata off, and what observers went through
+	quietMs                               int
+	noMeta, libraryObserver, idleObserver bool
+	longestIdle                           time.Duration
+}
+
+// notePrefix records what kind of prefix.target / origin a scripted notification carries.
+func (s *stats) notePrefix(o Op) {
+	switch {
+	case o.NoPrefix && o.Origin == "" && o.PTarget == "" && bare(o):
+		s.noPrefix = true
+	case o.PTarget == "":
+		s.ptEmpty = true
+	case o.PTarget == s.self:
+		s.ptEcho = true
+	case s.names[o.PTarget]:
+		s.ptPeer = true
+	default:
+		s.ptHost = true
+	}
+	if o.Origin == "openconfig" {
+		s.originSpelledOut = true
+	}
+	if s.ptVaries != nil {
+		if s.ptVaries[s.self] == nil {
+			s.ptVaries[s.self] = map[string]bool{}
+		}
+		s.ptVaries[s.self][o.PTarget] = true
+	}
 }
 
 func (s *stats) nontrivial() bool {
@@ -120,6 +154,21 @@ func (s *stats) labels() []string {
 	add(s.whileDown, "observer-attached-while-target-disconnected")
 	add(s.pauseByBound, "handler-released-by-wall-clock-bound")
 	add(s.boundHit, "some-bounded-wait-ended-by-its-bound")
+	add(s.noPrefix, "notification-without-prefix")
+	add(s.ptEmpty, "prefix-target-empty")
+	add(s.ptEcho, "prefix-target-echoes-the-configured-name")
+	add(s.ptHost, "prefix-target-is-the-devices-own-name")
+	add(s.ptPeer, "prefix-target-names-another-configured-target")
+	add(s.originSpelledOut, "prefix-origin-openconfig-spelled-out")
+	varies := false
+	for _, vs := range s.ptVaries {
+		varies = varies || len(vs) >= 3
+	}
+	add(varies, "prefix-target-differs-between-notifications-of-one-target")
+	add(s.quietMs >= 30000, "target-silent>=30s-real-time")
+	add(s.noMeta, "collector-without-periodic-metadata")
+	add(s.libraryObserver, "observer-dialled-by-the-client-library")
+	add(s.idleObserver, "observer-stream-idle>=33s-then-updated")
 	sort.Strings(l)
 	return l
 }
@@ -170,7 +219,12 @@ func reference(sc *Scenario, st *stats) map[string]interface{} {
 	ref := map[string]interface{}{}
 	st.kinds, st.breakVia, st.aimed, st.breakCode = map[string]bool{}, map[string]bool{}, map[string]bool{}, map[string]bool{}
 	servers, requests := map[int]int{}, map[int]int{}
+	st.names, st.ptVaries, st.noMeta = map[string]bool{}, map[string]map[string]bool{}, sc.NoMeta
 	for _, tg := range sc.Targets {
+		st.names[tg.Name] = true
+	}
+	for _, tg := range sc.Targets {
+		st.self = tg.Name
 		servers[tg.Server]++
 		requests[tg.Request]++
 		st.recvTimeout = st.recvTimeout || tg.RecvTimeoutMs > 0
@@ -593,7 +647,7 @@ func runOnce(e *env, workDir string, sc *Scenario, st *stats) error {
 	// the observers exist (not yet subscribed) before the collector can reach a target: scripts may wait for them
 	fr := newObservers(h, sc, id)
 	defer fr.stop()
-	col, err := startCollector(e, dir, cfgFile)
+	col, err := startCollector(e, dir, cfgFile, sc.NoMeta)
 	if err != nil {
 		return &inconclusive{msg: err.Error()}
 	}
